@@ -33,10 +33,22 @@ FIXED_DOCS = [
     '<r>x<a/>y<a>z</a><!--1--><!--2--><?p1 a?><?p2 b?></r>',
     '<r xmlns="d" xmlns:p="u"><a k="1">t<b/></a><x xmlns=""><a/></x><p:a/></r>',
     '<r xmlns="u" xmlns:p="u"><a k="1" p:k="2"/><p:a k=""/></r>',
+    # matches under several parents, nested same-name elements
+    '<r><a k="1"><b/><a><b k="2"/><b/></a><b k="1"/></a><c><a/><b/><a k="2"><b/></a></c></r>',
     # the default namespace is also bound to a prefix: no-namespace and default-namespace attributes (class j)
     '<r xmlns="u" xmlns:p="u"><a p:k="1"/><a k="1" p:k="2"/><b p:k=""/><c xmlns=""><a p:k="1"/></c></r>',
     # a default namespace with un-namespaced islands: what an un-prefixed name addresses depends on `namespaces`
     '<r xmlns="d" xmlns:p="u"><a k="1"/><n xmlns=""><a/><b k="1"><a k="2"/></b></n><b><a/><c xmlns=""><a k="1"/></c></b></r>',
+]
+
+
+# expressions run on every fixed document whatever the seed: shapes a past change of the code got wrong
+FIXED_EXPRS = [
+    "//a[not(position()=1)]", "//b[not(position()=last())]", "//*[boolean(position()=2)]", ".//a[not(position()=1)]",
+    "descendant-or-self::node()/b[not(position()=1)]", "//a[not(position()=last())][1]", "//b[position()=1 or not(@k)]",
+    "//a[@k][last()]", "a[@k][position()<last()]", "*[@k or @j][2]", "//*[@k][not(position()=1)]",
+    "descendant::a/b", "descendant::b/a[@k]", "//text()[contains(@k,'')]", "//a[@k<2]", "//a[@k=1]", "//*[@k=(1=1)]",
+    "preceding::*[1]", "following::*[2]", "ancestor-or-self::*[last()]", "..", "/.",
 ]
 
 
@@ -325,12 +337,20 @@ def run(ctx, args):
             tree = xq.Tree(d.root)
             preamble.append("Definition T%d : itree := %s." % (di, tree.coq()))
             has_default = bool(d.root._etree_obj.nsmap.get(None))
-            for ci in range(per_doc if di >= len(FIXED_DOCS) else per_doc * 2):
+            fixed = []
+            if di < len(FIXED_DOCS):
+                deep = [x for x in tree.nodes if len(x[0]) >= 3] or tree.nodes
+                fixed = [(fe, tree.nodes[0]) for fe in FIXED_EXPRS] + [(fe, deep[len(deep) // 2]) for fe in FIXED_EXPRS]
+            for ci in range((per_doc if di >= len(FIXED_DOCS) else per_doc * 2) + len(fixed)):
                 wild = rng.random() < 0.45
                 paths = gen_expr(rng, wild)
                 e = render_delb(paths)
                 pos, node, _ = rng.choice(tree.nodes)
                 um = rng.choice([None, None, {"p": P_NS}, {"p": P_NS}, {"p": P_NS, "": D_NS}, {"p": D_NS}, {}, {}])
+                if ci < len(fixed):
+                    e, (pos, node, _) = fixed[ci]
+                    paths = None
+                    um = {"p": P_NS} if di != 0 else None
                 try:
                     from _delb.xpath import parse
                     ast = parse(e)
@@ -358,7 +378,7 @@ def run(ctx, args):
                     nsd = {k: v for k, v in eff if k and v}
                     lx_plain = lxml_eval(tree, node, e, nsd)
                     dflt = dict(eff).get("", "")
-                    de = render_lxml(paths, dflt)
+                    de = render_lxml(paths, dflt) if paths is not None else None
                     if de is not None:
                         nsd2 = dict(nsd)
                         if dflt:
